@@ -274,6 +274,7 @@ Lemma in_flight_unfold t s :
   + sumZ (map (fun b => sumZ (map (fun q => ind (fst q =? t) * snd q) (c_toks b))) (calls (sr s))).
 Proof. reflexivity. Qed.
 
+
 (* ------------------------------------------------------------------------------------------------ *)
 (** * Supply of a module-owned token's bridge denomination on one chain *)
 
@@ -292,12 +293,36 @@ Definition lS : lin := lin_cell (CS (10 * i + c)).
 Lemma fromcfg_kindS tk : fromcfg g tk -> t_id tk = i -> t_kind tk = KMod.
 Proof. unfold fromcfg. intros H E. rewrite E, Hi in H. injection H as <-. assumption. Qed.
 
-Ltac sup_fin tk Htk :=
-  apply dB_pdelta; blk_unfold; den_unfold; unfold lS, wS, ind;
-  assert (Hcc : 1 <= c <= 8) by (unfold chain_ok in Hc; apply andb_true_iff in Hc as [H1 H2]; apply Z.leb_le in H1, H2; lia);
-  (destruct (Z.eqb_spec (t_id tk) i) as [Eid|Eid];
-   [pose proof (fromcfg_kindS tk Htk Eid) as K; rewrite ?K | destruct (t_kind tk)]);
-  split_leb; split_eqb; split_if; pd_cbn; cbn [coef lin_cell cell_eqb]; split_eqb; try lia.
+Lemma c_range : 1 <= c <= 8.
+Proof. unfold chain_ok in Hc. apply andb_true_iff in Hc as [H1 H2]. apply Z.leb_le in H1, H2. lia. Qed.
+
+(* is denomination d the watched one? *)
+Lemma ws_other d : dtok d <> i -> (10 * i + c =? d) = false.
+Proof. intros H. apply Z.eqb_neq. intros E. apply H. rewrite <- E. apply dtok_intro. pose proof c_range. lia. Qed.
+Lemma ws_base tk : (10 * i + c =? base_of tk) = false.
+Proof. apply Z.eqb_neq. unfold base_of. pose proof c_range. lia. Qed.
+Lemma ws_ibc tk : (10 * i + c =? ibc_of tk) = false.
+Proof. apply Z.eqb_neq. unfold ibc_of. pose proof c_range. lia. Qed.
+Lemma ws_alias tk c' : t_id tk = i -> t_kind tk = KMod -> (10 * i + c =? alias_of tk c') = (c' =? c).
+Proof.
+  intros E K. unfold alias_of. rewrite K, E. pose proof c_range. unfold chain_ok.
+  destruct (Z.leb_spec 1 c'), (Z.leb_spec c' 8), (Z.eqb_spec c' c); cbn [andb]; try (apply Z.eqb_neq; lia); apply Z.eqb_eq; lia.
+Qed.
+
+Ltac coS := cbn [coef lS lin_cell cell_eqb].
+Ltac fin_other tk Eid :=
+  rewrite ?(ws_other (base_of tk)), ?(ws_other (ibc_of tk)) by (rewrite ?dtok_base, ?dtok_ibc; assumption);
+  repeat match goal with |- context [10 * i + c =? alias_of tk ?c'] => rewrite (ws_other (alias_of tk c')) by (rewrite dtok_alias; assumption) end;
+  repeat match goal with |- context [10 * i + c =? denom_rep tk ?r] => rewrite (ws_other (denom_rep tk r)) by (rewrite dtok_rep; assumption) end.
+
+Ltac sup_blk tk Htk :=
+  apply dB_pdelta; unfold wS, ind; blk_unfold;
+  destruct (Z.eqb_spec (t_id tk) i) as [Eid|Eid];
+  [ pose proof (fromcfg_kindS tk Htk Eid) as K; rewrite ?K; split_prog; pd_rw; coS; rewrite ?ws_base, ?ws_ibc;
+    repeat match goal with |- context [10 * i + c =? alias_of tk ?c'] => rewrite (ws_alias tk c' Eid K) end;
+    rewrite ?andb_true_r; split_eqb; try lia
+  | rewrite ?andb_false_r; destruct (t_kind tk); split_prog; pd_rw; coS; fin_other tk Eid; try lia ].
+Ltac sup_plain := apply dB_pdelta; blk_unfold; pd_rw; coS; try lia.
 
 Lemma blocks_sup : blocks g U lS wS gdS geS 1 0.
 Proof.
@@ -305,28 +330,346 @@ Proof.
                 intros tk a src tg x Htk Ha|intros tk a b src tg x Htk Ha Hb|intros tk c' a x Htk Ha|reflexivity|
                 intros tk c' x Htk|intros tk c' a x Htk Ha|intros a x Ha|intros tk a x Htk Ha|intros a b d x Ha Hb|
                 intros i' a b x Ha Hb|intros a x Ha|intros a x Ha|intros tk a x Htk Ha|intros tk a x Htk Ha|intros tk a x Htk Ha| |].
-  - sup_fin tk Htk.
-  - sup_fin tk Htk.
-  - sup_fin tk Htk.
-  - sup_fin tk Htk.
-  - sup_fin tk Htk.
-  - sup_fin tk Htk.
-  - sup_fin tk Htk.
-  - sup_fin tk Htk.
-  - sup_fin tk Htk.
-  - apply dB_pdelta. unfold handler_origin_token, lS. pd_cbn. cbn [coef lin_cell cell_eqb]. lia.
-  - sup_fin tk Htk.
-  - apply dB_pdelta. unfold lS. pd_cbn. cbn [coef lin_cell cell_eqb]. lia.
-  - apply dB_pdelta. unfold lS. pd_cbn. cbn [coef lin_cell cell_eqb]. lia.
-  - apply dB_pdelta. unfold lS. pd_cbn. cbn [coef lin_cell cell_eqb]. lia.
-  - apply dB_pdelta. unfold lS. pd_cbn. cbn [coef lin_cell cell_eqb]. lia.
-  - sup_fin tk Htk.
-  - sup_fin tk Htk.
-  - sup_fin tk Htk.
+  - sup_blk tk Htk.
+  - sup_blk tk Htk.
+  - sup_blk tk Htk.
+  - sup_blk tk Htk.
+  - sup_blk tk Htk.
+  - sup_blk tk Htk.
+  - sup_blk tk Htk.
+  - sup_blk tk Htk.
+  - sup_blk tk Htk.
+  - sup_plain.
+  - sup_blk tk Htk.
+  - sup_plain.
+  - sup_plain.
+  - sup_plain.
+  - sup_plain.
+  - sup_blk tk Htk. all: pose proof c_range; rewrite ?(proj2 (Z.eqb_neq 9 c)) by lia; cbn [andb]; lia.
+  - sup_blk tk Htk.
+  - sup_blk tk Htk.
   - intros gh i' c' x. unfold gdS, geS, wS, ind. cbn [depc exec]. rewrite get2_set2. unfold key_eqb. cbn [fst snd].
-    rewrite (Z.eqb_sym i i'), (Z.eqb_sym c c'). destruct (i' =? i), (c' =? c); cbn [andb]; split; lia.
+    rewrite (Z.eqb_sym i i'), (Z.eqb_sym c c'). destruct (Z.eqb_spec i' i), (Z.eqb_spec c' c); cbn [andb]; subst; split; lia.
   - intros gh i' c' x. unfold gdS, geS, wS, ind. cbn [depc exec]. rewrite get2_set2. unfold key_eqb. cbn [fst snd].
-    rewrite (Z.eqb_sym i i'), (Z.eqb_sym c c'). destruct (i' =? i), (c' =? c); cbn [andb]; split; lia.
+    rewrite (Z.eqb_sym i i'), (Z.eqb_sym c c'). destruct (Z.eqb_spec i' i), (Z.eqb_spec c' c); cbn [andb]; subst; split; lia.
 Qed.
 
 End SUP.
+
+(* ------------------------------------------------------------------------------------------------ *)
+(** * Bank consistency: the balances of the module accounts and the users add up to the supply *)
+
+Definition mods : list Z := [1; 2; 3; 4; 5; 6; 7; 8; 20; 21; 22; 23; 24].
+
+Section BANKSUM.
+Variables (g : cfg) (U : list Z) (d : Z).
+Hypothesis HU : users U.
+Definition HH : list Z := mods ++ U.
+Definition lT : lin := lin_add (lin_sum (fun a => lin_cell (CB a d)) HH) (lin_scale (-1) (lin_cell (CS d))).
+
+Lemma NoDup_HH : NoDup HH.
+Proof.
+  destruct HU as [Hn Hm]. unfold HH, mods.
+  repeat (apply NoDup_cons; [intros Hin; cbn [In app] in Hin;
+     repeat (destruct Hin as [Hin|Hin]; [try discriminate Hin|]); try (specialize (Hm _ Hin); discriminate Hm)|]).
+  assumption.
+Qed.
+
+Lemma coefT_CB a d' : coef lT (CB a d') = ind (memZ a HH) * ind (d' =? d).
+Proof.
+  unfold lT. cbn [coef lin_add lin_scale lin_cell cell_eqb]. rewrite lin_sum_coef, Z.mul_0_r, Z.add_0_r.
+  rewrite <- (sum_ind_NoDup HH a NoDup_HH). induction HH as [|a0 l IH]; cbn [fold_right]; [reflexivity|].
+  rewrite IH. cbn [coef lin_cell cell_eqb]. generalize (fold_right (fun a1 acc => ind (a1 =? a) + acc) 0 l). intros F.
+  unfold ind. rewrite (Z.eqb_sym d d'). destruct (a0 =? a), (d' =? d); cbn [andb]; lia.
+Qed.
+Lemma coefT_CS d' : coef lT (CS d') = - ind (d' =? d).
+Proof.
+  unfold lT. cbn [coef lin_add lin_scale lin_cell cell_eqb]. rewrite lin_sum_coef.
+  assert (E : fold_right (fun a acc => coef (lin_cell (CB a d)) (CS d') + acc) 0 HH = 0) by (induction HH as [|? ? IHH]; cbn [fold_right]; [reflexivity|rewrite IHH; reflexivity]).
+  rewrite E. unfold ind. rewrite (Z.eqb_sym d d'). destruct (d' =? d); lia.
+Qed.
+Lemma coefT_CE i a : coef lT (CE i a) = 0.
+Proof.
+  unfold lT. cbn [coef lin_add lin_scale lin_cell cell_eqb]. rewrite lin_sum_coef.
+  assert (E : fold_right (fun a0 acc => coef (lin_cell (CB a0 d)) (CE i a) + acc) 0 HH = 0) by (induction HH as [|? ? IHH]; cbn [fold_right]; [reflexivity|rewrite IHH; reflexivity]). lia.
+Qed.
+Lemma coefT_CT i : coef lT (CT i) = 0.
+Proof.
+  unfold lT. cbn [coef lin_add lin_scale lin_cell cell_eqb]. rewrite lin_sum_coef.
+  assert (E : fold_right (fun a0 acc => coef (lin_cell (CB a0 d)) (CT i) + acc) 0 HH = 0) by (induction HH as [|? ? IHH]; cbn [fold_right]; [reflexivity|rewrite IHH; reflexivity]). lia.
+Qed.
+
+Lemma memH_user a : In a U -> memZ a HH = true.
+Proof. intros H. apply existsb_exists. exists a. split; [apply in_or_app; right; assumption|apply Z.eqb_refl]. Qed.
+Lemma memH_cacc c : memZ (cacc c) HH = true.
+Proof.
+  unfold cacc, chain_ok. destruct (Z.leb_spec 1 c), (Z.leb_spec c 8); cbn [andb]; try reflexivity.
+  assert (c = 1 \/ c = 2 \/ c = 3 \/ c = 4 \/ c = 5 \/ c = 6 \/ c = 7 \/ c = 8) as Hc by lia.
+  repeat (destruct Hc as [->|Hc]; [reflexivity|]). subst. reflexivity.
+Qed.
+
+Ltac memH :=
+  repeat match goal with
+  | H : In ?a U |- context [memZ ?a HH] => rewrite (memH_user a H)
+  | |- context [memZ (cacc ?c) HH] => rewrite (memH_cacc c)
+  | |- context [memZ A_ERC20 HH] => change (memZ A_ERC20 HH) with true
+  | |- context [memZ A_IBC HH] => change (memZ A_IBC HH) with true
+  | |- context [memZ A_WFX HH] => change (memZ A_WFX HH) with true
+  | |- context [memZ A_EVM HH] => change (memZ A_EVM HH) with true
+  | |- context [memZ A_PRE HH] => change (memZ A_PRE HH) with true
+  end.
+
+Ltac bs_blk := apply dB_pdelta; blk_unfold; try match goal with K : t_kind _ = _ |- _ => rewrite ?K end;
+               split_prog; pd_rw; rewrite ?coefT_CB, ?coefT_CS, ?coefT_CE, ?coefT_CT; memH; cbn [ind]; try lia.
+
+Lemma blocks_banksum : blocks g U lT (fun _ _ => 0) (fun _ => 0) (fun _ => 0) 0 1.
+Proof.
+  constructor; [intros tk c' a x Htk Ha|intros tk c' a x Htk Ha|intros tk a b x Htk Ha Hb|intros tk a b x Htk Ha Hb|
+                intros tk a src tg x Htk Ha|intros tk a b src tg x Htk Ha Hb|intros tk c' a x Htk Ha|reflexivity|
+                intros tk c' x Htk|intros tk c' a x Htk Ha|intros a x Ha|intros tk a x Htk Ha|intros a b d' x Ha Hb|
+                intros i' a b x Ha Hb|intros a x Ha|intros a x Ha|intros tk a x Htk Ha|intros tk a x Htk Ha|intros tk a x Htk Ha| |].
+  all: try (destruct (t_kind tk) eqn:K).
+  all: try solve [bs_blk].
+  all: try (intros; split; lia).
+Qed.
+
+End BANKSUM.
+
+(* ------------------------------------------------------------------------------------------------ *)
+(** * Frame: an account that is neither named by the operations, nor a module account, nor a stored refund address
+      keeps every balance *)
+
+Section FRAME.
+Variables (g : cfg) (U : list Z) (a0 : Z).
+Hypothesis HU : users U.
+Hypothesis Hnot : ~ In a0 U.
+Hypothesis Hnm : is_module a0 = false.
+
+Lemma a0_user a : In a U -> (a0 =? a) = false.
+Proof. intros H. apply Z.eqb_neq. intros ->. contradiction. Qed.
+Lemma a0_mod m : is_module m = true -> (a0 =? m) = false.
+Proof. intros H. apply Z.eqb_neq. intros ->. congruence. Qed.
+
+Ltac a0_rw :=
+  repeat match goal with
+  | H : In ?a U |- context [a0 =? ?a] => rewrite (a0_user a H)
+  | |- context [a0 =? cacc ?c] => rewrite (a0_mod (cacc c) (cacc_module c))
+  | |- context [a0 =? A_ERC20] => rewrite (a0_mod A_ERC20 eq_refl)
+  | |- context [a0 =? A_IBC] => rewrite (a0_mod A_IBC eq_refl)
+  | |- context [a0 =? A_WFX] => rewrite (a0_mod A_WFX eq_refl)
+  | |- context [a0 =? A_EVM] => rewrite (a0_mod A_EVM eq_refl)
+  | |- context [a0 =? A_PRE] => rewrite (a0_mod A_PRE eq_refl)
+  end.
+
+Ltac fr_blk := apply dB_pdelta; blk_unfold; try match goal with K : t_kind _ = _ |- _ => rewrite ?K end;
+               split_prog; pd_rw; cbn [coef lin_cell cell_eqb]; a0_rw; rewrite ?andb_false_r; cbn [andb]; try lia.
+
+Lemma blocks_frame (c0 : cell) : (exists d, c0 = CB a0 d) \/ (exists i, c0 = CE i a0) ->
+  blocks g U (lin_cell c0) (fun _ _ => 0) (fun _ => 0) (fun _ => 0) 0 1.
+Proof.
+  intros Hc0.
+  constructor; [intros tk c' a x Htk Ha|intros tk c' a x Htk Ha|intros tk a b x Htk Ha Hb|intros tk a b x Htk Ha Hb|
+                intros tk a src tg x Htk Ha|intros tk a b src tg x Htk Ha Hb|intros tk c' a x Htk Ha|reflexivity|
+                intros tk c' x Htk|intros tk c' a x Htk Ha|intros a x Ha|intros tk a x Htk Ha|intros a b d' x Ha Hb|
+                intros i' a b x Ha Hb|intros a x Ha|intros a x Ha|intros tk a x Htk Ha|intros tk a x Htk Ha|intros tk a x Htk Ha| |].
+  all: try (destruct (t_kind tk) eqn:K).
+  all: try solve [destruct Hc0 as [[d0 ->]|[i0 ->]]; fr_blk].
+  all: try (intros; split; lia).
+Qed.
+
+End FRAME.
+
+Theorem frame U g a0 s0 ops : ~ In a0 U -> is_module a0 = false -> recs_wf U (sr s0) -> Forall (op_ok U) ops ->
+  let s := steps g s0 ops in
+  (forall d, get2 (a0, d) (bank (sb s)) = get2 (a0, d) (bank (sb s0))) /\
+  (forall i, get2 (i, a0) (ebal (sb s)) = get2 (i, a0) (ebal (sb s0))).
+Proof.
+  intros Hn Hm W Hops s. split.
+  - intros d.
+    destruct (steps_keeps g U (lin_cell (CB a0 d)) _ _ _ 0 1 (blocks_frame g U a0 Hn Hm _ (or_introl (ex_intro _ d eq_refl))) ops Hops s0 W) as [E _].
+    fold s in E. unfold V in E. rewrite !infl_w0 in E. cbn [L lin_cell cget] in E. lia.
+  - intros i.
+    destruct (steps_keeps g U (lin_cell (CE i a0)) _ _ _ 0 1 (blocks_frame g U a0 Hn Hm _ (or_intror (ex_intro _ i eq_refl))) ops Hops s0 W) as [E _].
+    fold s in E. unfold V in E. rewrite !infl_w0 in E. cbn [L lin_cell cget] in E. lia.
+Qed.
+
+(* ------------------------------------------------------------------------------------------------ *)
+(** * Per-chain statements: supply of the bridge denomination, escrow identity *)
+
+Definition supply_of (d : Z) (s : state) : Z := get1 d (supply (sb s)).
+Definition in_flight_on (c i : Z) (s : state) : Z := infl (wS i c) (sr s).
+Definition dep_via (c i : Z) (s : state) : Z := get2 (i, c) (depc (sg s)).
+Definition exe_via (c i : Z) (s : state) : Z := get2 (i, c) (exec (sg s)).
+(* what is currently bridged in through chain c: deposited - executed - in flight *)
+Definition net_in (c i : Z) (s : state) : Z := dep_via c i s - exe_via c i s - in_flight_on c i s.
+(* everything the module accounts and the users hold of denomination d *)
+Definition held_total (U : list Z) (d : Z) (s : state) : Z :=
+  fold_right (fun a acc => get2 (a, d) (bank (sb s)) + acc) 0 (mods ++ U).
+
+Theorem alias_supply U g i c tkI s0 ops :
+  users U -> chain_ok c = true -> find_tok g i = Some tkI -> t_kind tkI = KMod ->
+  recs_wf U (sr s0) -> Forall (op_ok U) ops ->
+  let s := steps g s0 ops in
+  supply_of (10 * i + c) s - net_in c i s = supply_of (10 * i + c) s0 - net_in c i s0.
+Proof.
+  intros HU Hc Hi Hk W Hops s.
+  destruct (steps_keeps g U (lS i c) (wS i c) (gdS i c) (geS i c) 1 0 (blocks_sup g U i c tkI Hc Hi Hk) ops Hops s0 W) as [E _].
+  fold s in E. unfold V, lS, gdS, geS in E. cbn [L lin_cell cget] in E.
+  unfold supply_of, net_in, dep_via, exe_via, in_flight_on. lia.
+Qed.
+
+Theorem bank_consistent U g d s0 ops : users U -> recs_wf U (sr s0) -> Forall (op_ok U) ops ->
+  let s := steps g s0 ops in
+  held_total U d s - supply_of d s = held_total U d s0 - supply_of d s0.
+Proof.
+  intros HU W Hops s.
+  destruct (steps_keeps g U (lT U d) _ _ _ 0 1 (blocks_banksum g U d HU) ops Hops s0 W) as [E _].
+  fold s in E. unfold V in E. rewrite !infl_w0 in E.
+  assert (HL : forall st, lT U d (sb st) = held_total U d st - supply_of d st).
+  { intros st. unfold lT, held_total, supply_of, HH. cbn [L lin_add lin_scale lin_cell cget]. rewrite lin_sum_L.
+    cbn [L lin_cell cget]. set (X := fold_right _ _ _). lia. }
+  rewrite !HL in E. lia.
+Qed.
+
+(* the escrow identity: what the chain module, the other module accounts and the users hold of the bridge denomination
+   equals what is bridged in through that chain — for every history *)
+Theorem escrow_identity U g i c tkI s0 ops :
+  users U -> chain_ok c = true -> find_tok g i = Some tkI -> t_kind tkI = KMod ->
+  recs_wf U (sr s0) -> Forall (op_ok U) ops ->
+  let s := steps g s0 ops in
+  held_total U (10 * i + c) s - net_in c i s = held_total U (10 * i + c) s0 - net_in c i s0.
+Proof.
+  intros HU Hc Hi Hk W Hops s.
+  pose proof (alias_supply U g i c tkI s0 ops HU Hc Hi Hk W Hops) as E1.
+  pose proof (bank_consistent U g (10 * i + c) s0 ops HU W Hops) as E2. cbn zeta in E1, E2. fold s in E1, E2. lia.
+Qed.
+
+(* ------------------------------------------------------------------------------------------------ *)
+(** * "Withdrawable": when is a send towards chain c accepted? *)
+
+Lemma on_chain_range tk c : on_chain tk c = true -> 1 <= c <= 8 /\ chain_ok c = true.
+Proof.
+  unfold on_chain. intros H. apply andb_true_iff in H as [H _]. split; [|assumption].
+  unfold chain_ok in H. apply andb_true_iff in H as [H1 H2]. apply Z.leb_le in H1, H2. lia.
+Qed.
+
+Ltac run_step :=
+  cbn [runB run_act app];
+  match goal with
+  | |- context [?x <=? cget ?c ?b] =>
+      let v := fresh "v" in
+      destruct (Z.leb_spec x (cget c b)) as [?|Hbad]; [|exfalso; revert Hbad; rewrite ?cget_cset; cbn [cell_eqb cget]]
+  end.
+
+Theorem b2b_succeeds tk c a x b :
+  on_chain tk c = true -> a <> cacc c -> 0 <= x ->
+  x <= cget (CB a (base_of tk)) b ->
+  0 <= cget (CB (cacc c) (base_of tk)) b -> 0 <= cget (CB a (alias_of tk c)) b -> 0 <= cget (CB (cacc c) (alias_of tk c)) b ->
+  (t_kind tk = KMod -> x <= cget (CB (cacc c) (alias_of tk c)) b) ->
+  exists b', runB (base_to_bridge_token tk c a x) b = Some b'.
+Proof.
+  intros Hon Hne Hx Hbal N1 N2 N3 Hmod.
+  destruct (on_chain_range _ _ Hon) as [Hr Hok].
+  unfold base_to_bridge_token, conversion_coin, withdraw_bridge_token. rewrite Hon.
+  assert (Hal : t_kind tk <> KFX -> alias_of tk c <> base_of tk).
+  { unfold alias_of, base_of. rewrite Hok. destruct (t_kind tk); [congruence|lia|lia]. }
+  destruct (t_kind tk) eqn:K.
+  - assert (E : alias_of tk c = base_of tk) by (unfold alias_of, base_of; rewrite K; reflexivity).
+    rewrite E in *. unfold send. cbn [runB run_act app].
+    destruct (Z.leb_spec x (cget (CB a (base_of tk)) b)); [eauto|lia].
+  - specialize (Hmod eq_refl). specialize (Hal ltac:(congruence)).
+    unfold send, burn, mint. cbn [app].
+    repeat (cbn [runB run_act];
+      match goal with
+      | |- context [?y <=? cget ?cc ?bb] => destruct (Z.leb_spec y (cget cc bb)) as [_|Hbad];
+          [|exfalso; revert Hbad; rewrite ?cget_cset; cbn [cell_eqb];
+            repeat match goal with |- context [?p =? ?q] => destruct (Z.eqb_spec p q) end; cbn [andb]; cbn [cget] in *; lia]
+      end).
+    cbn [runB]. eauto.
+  - specialize (Hal ltac:(congruence)).
+    unfold send, burn, mint. cbn [app].
+    repeat (cbn [runB run_act];
+      match goal with
+      | |- context [?y <=? cget ?cc ?bb] => destruct (Z.leb_spec y (cget cc bb)) as [_|Hbad];
+          [|exfalso; revert Hbad; rewrite ?cget_cset; cbn [cell_eqb];
+            repeat match goal with |- context [?p =? ?q] => destruct (Z.eqb_spec p q) end; cbn [andb]; cbn [cget] in *; lia]
+      end).
+    cbn [runB]. eauto.
+Qed.
+
+(* a MsgSendToExternal by a holder whose balance suffices is accepted as soon as, for a module-owned token, the chain
+   module holds the amount in the bridge denomination; FX and externally-owned tokens need no module-side funds *)
+Theorem withdrawable_guarded g s c i tk a amt fee :
+  find_tok g i = Some tk -> on_chain tk c = true -> a <> cacc c -> 0 <= amt + fee ->
+  amt + fee <= cget (CB a (base_of tk)) (sb s) ->
+  0 <= cget (CB (cacc c) (base_of tk)) (sb s) -> 0 <= cget (CB a (alias_of tk c)) (sb s) ->
+  0 <= cget (CB (cacc c) (alias_of tk c)) (sb s) ->
+  (t_kind tk = KMod -> amt + fee <= cget (CB (cacc c) (alias_of tk c)) (sb s)) ->
+  snd (step g s (OSendToExternal c i a amt fee)) = true.
+Proof.
+  intros Hi Hon Hne Hx Hbal N1 N2 N3 Hmod.
+  destruct (b2b_succeeds tk c a (amt + fee) (sb s) Hon Hne Hx Hbal N1 N2 N3 Hmod) as [b' Hb].
+  unfold step, run, with_tok. rewrite Hi. unfold add_to_outgoing_pool, bind, doB. rewrite Hb. reflexivity.
+Qed.
+
+(* ------------------------------------------------------------------------------------------------ *)
+(** * Witnesses (replayed on the real application by harness/c04) *)
+
+Definition ex_cfg : cfg :=
+  [ {| t_id := 0; t_kind := KFX; t_chains := [1]; t_ibc := false |};
+    {| t_id := 1; t_kind := KMod; t_chains := [1; 2]; t_ibc := false |};
+    {| t_id := 2; t_kind := KExt; t_chains := [1]; t_ibc := false |} ].
+(* user 100 holds 5000 FX and 1000 of the externally-owned coin (backed by 1000 ERC-20 escrowed by the erc20 module);
+   the eth module holds FX *)
+Definition ex_s0 : state :=
+  {| sb := {| bank := [((100, 0), 5000); ((1, 0), 1000000); ((100, 20), 1000)]; supply := [(0, 1005000); (20, 1000)];
+              ebal := [((2, 20), 1000)]; etot := [(2, 1000)]; disabled := [] |};
+     sr := {| pool := []; batches := []; calls := []; txid := []; batchid := []; callid := []; height := [(1, 1000)];
+              rel := []; frommsg := [] |};
+     sg := {| dept := []; exet := []; depc := []; exec := [] |} |}.
+Definition ex_U : list Z := [100; 101].
+
+(* deposit 1000 of the module-owned token through chain 1, send 400 out in a bridge call, the call fails on the
+   external chain: the refund (older rule) re-mints the bridge denomination and parks it in the erc20 module *)
+Definition ex_parked : list op :=
+  [ OSendToFx 1 1 100 1000 0; OBridgeCallMsg 1 100 100 [(1, 400)] 9000; OBridgeCallResult 1 1 false ].
+
+Lemma ex_wf : users ex_U /\ recs_wf ex_U (sr ex_s0) /\ Forall (op_ok ex_U) ex_parked.
+Proof.
+  split; [|split].
+  - split; [repeat constructor; cbn; intuition discriminate|]. intros a [<-|[<-|[]]]; reflexivity.
+  - split; intros b [].
+  - unfold ex_parked, ex_U. repeat constructor; cbn; intuition lia.
+Qed.
+
+(* the full "withdrawable" reading is false of the faithful model: the holder's balance suffices, what is bridged in
+   through chain 1 suffices, and still the send is refused *)
+Theorem withdrawable_refuted :
+  exists g s0 ops c i a amt fee,
+    let s := steps g s0 ops in
+    amt + fee <= get2 (a, 10 * i) (bank (sb s)) /\ amt + fee <= net_in c i s /\
+    snd (step g s (OSendToExternal c i a amt fee)) = false.
+Proof. exists ex_cfg, ex_s0, ex_parked, 1, 1, 100, 900, 1. vm_compute. repeat split; discriminate. Qed.
+
+(* and the refund of a failed outgoing bridge call carrying an externally-owned token can never be executed *)
+Theorem refund_refused_witness :
+  exists g s0 ops c n,
+    let s := steps g s0 ops in
+    find_call c n (calls (sr s)) <> None /\ snd (step g s (OBridgeCallResult c n false)) = false.
+Proof.
+  exists ex_cfg, ex_s0, [OBridgeCallMsg 1 100 100 [(2, 300)] 9000], 1, 1. vm_compute. split; [discriminate|reflexivity].
+Qed.
+
+(* non-vacuity: a history in which value moves in every direction and every hypothesis of the theorems holds *)
+Definition ex_hist : list op :=
+  [ OSendToFx 1 1 100 1000 0; OSendToFx 2 1 101 500 1; OSendToExternal 1 1 100 100 7; OSendToExternal 1 0 100 50 5;
+    OConvertCoin 1 100 101 200; ORequestBatch 1 1 2000; OBatchExecuted 1 1001 1 1; OPreCrossChain 2 1 101 300 3 false;
+    OCancel 2 101 1; OBridgeCallMsg 1 100 101 [(0, 20); (1, 30)] 9000; OBridgeCallResult 1 1 true ].
+Example conservation_nonvacuous :
+  Forall (op_ok ex_U) ex_hist /\
+  map (fun o => snd (step ex_cfg (steps ex_cfg ex_s0 (firstn 0 ex_hist)) o)) (firstn 1 ex_hist) = [true] /\
+  let s := steps ex_cfg ex_s0 ex_hist in
+  (user_holdings ex_U 1 s, in_flight 1 s, deposited 1 s, executed_out 1 s) = (1363, 0, 1500, 137) /\
+  (user_holdings ex_U 0 s, in_flight 0 s, deposited 0 s, executed_out 0 s) = (4925, 55, 0, 20) /\
+  net_in 1 1 s = 863 /\ supply_of 11 s = 863 /\ held_total ex_U 11 s = 863.
+Proof. split; [unfold ex_hist, ex_U; repeat constructor; cbn; intuition lia|]. vm_compute. repeat split. Qed.
